@@ -944,6 +944,17 @@ def long_message_family(deep_tier):
                 m = pr.long_message(kind, width, start)
                 for verbose in (False, True):
                     out.append(('v2', [], [m], {'verbose': True} if verbose else None))
+    # dense runs: every cut point from behind the fixed prefix to byte 1100, and from byte 2
+    for verbose in (False, True):
+        opts = {'verbose': True} if verbose else None
+        for kind in pr.KINDS:
+            for width in (2, 3, 4):
+                for align in range(width):
+                    out.append(('v2', [], [pr.dense_message(kind, width, align)], opts))
+        for kind in pr.EARLY:
+            for width in (2, 3, 4):
+                for align in range(width):
+                    out.append(('v2', [], [pr.early_message(kind, width, align)], opts))
     # the same message classes on the other protocols, one representative each
     for pname in ('v1', 'loose', 'auto'):
         for kind in pr.KINDS:
@@ -1025,7 +1036,8 @@ RULE = ('connection case = (protocol class, outstanding requests: none / 3 singl
         'raw non-ASCII), byte-mutated valid messages, invalid UTF-8, responses aimed at the '
         'outstanding ids (permuted, duplicated, near-miss id types); long messages of 8 kinds '
         'with a 2/3/4-byte character starting at every offset 96..102 and before 64/128/256/1000/'
-        '1024.  non-trivial = distinct (protocol, state, result line) other than plain parse '
+        '1024, and dense runs of 2/3/4-byte characters in every alignment over bytes 2..140 and '
+        '~30..1100 (every cut point inside a character).  non-trivial = distinct (protocol, state, result line) other than plain parse '
         'errors; distinct session cases')
 
 
